@@ -468,3 +468,70 @@ class AppendFunctions(object):
                        % (self.cls.name, name, fn.lineno, self.sink, self.prefix, name, "".join("(%s : Nat) " % p for p in params), self.block(fn.body, params)))
             self.names.add(name)
         return "\n".join(out)
+
+
+# ---------------------------------------------------------------------------------------------------------------------------------------------
+# Fourth mode: functions that READ integers off the front of a list handed to them (`def f(self, data)` / `def f(self, x, data)`): the integer readers
+# of the decoder.  Statements: `x = data.pop(0)` (raises on an empty list), `x = <int expr>`, `x = self.g(..., data)` for a function translated before,
+# if / else, `return <int expr>`, `return self.g(..., data)`, raise.  Result type `Py.Rd`: raised | ret (v : Nat) (rest : List Nat) — the value and what is
+# left of the list.  `x is not None` for an integer variable is `True`.  Branches are translated in continuation style (the statements after an `if`
+# are repeated in both branches), so a variable assigned in the branches is simply the innermost `let`.
+class ReadFunctions(AppendFunctions):
+    def test(self, e, params):
+        if (isinstance(e, ast.Compare) and len(e.ops) == 1 and isinstance(e.ops[0], (ast.IsNot, ast.Is)) and isinstance(e.comparators[0], ast.Constant)
+                and e.comparators[0].value is None and isinstance(e.left, ast.Name) and e.left.id in params):
+            return "True" if isinstance(e.ops[0], ast.IsNot) else "False"
+        return AppendFunctions.test(self, e, params)
+
+    def call(self, e, params):
+        """self.g(a, ..., data) -> Lean application, or None"""
+        if (isinstance(e, ast.Call) and isinstance(e.func, ast.Attribute) and isinstance(e.func.value, ast.Name) and e.func.value.id == "self"
+                and e.func.attr in self.names and e.args and isinstance(e.args[-1], ast.Name) and e.args[-1].id == self.sink and not e.keywords):
+            return "(%s%s %s%s)" % (self.prefix, e.func.attr, "".join(self.nexpr(a, params) + " " for a in e.args[:-1]), self.sink)
+        return None
+
+    def body(self, stmts, params):
+        if not stmts:
+            raise Unsupported("a path that falls off the end of the function")
+        s, rest = stmts[0], stmts[1:]
+        if isinstance(s, ast.Raise):
+            return "Py.Rd.raised"
+        if isinstance(s, ast.Return):
+            c = self.call(s.value, params)
+            if c is not None:
+                return c
+            v = s.value
+            if (isinstance(v, ast.Call) and isinstance(v.func, ast.Attribute) and isinstance(v.func.value, ast.Name) and v.func.value.id == self.sink
+                    and v.func.attr == "pop" and len(v.args) == 1 and isinstance(v.args[0], ast.Constant) and v.args[0].value == 0):
+                return "(match %s with | [] => Py.Rd.raised | popped :: %s => Py.Rd.ret popped %s)" % (self.sink, self.sink, self.sink)
+            if isinstance(s.value, ast.Constant) and isinstance(s.value.value, str):
+                return "Py.Rd.raised"          # (a string where an integer is expected: no caller can use it — only on paths the theorems show dead)
+            return "(Py.Rd.ret %s %s)" % (self.nexpr(s.value, params), self.sink)
+        if isinstance(s, ast.Assign) and len(s.targets) == 1 and isinstance(s.targets[0], ast.Name):
+            x, v = s.targets[0].id, s.value
+            if (isinstance(v, ast.Call) and isinstance(v.func, ast.Attribute) and isinstance(v.func.value, ast.Name) and v.func.value.id == self.sink
+                    and v.func.attr == "pop" and len(v.args) == 1 and isinstance(v.args[0], ast.Constant) and v.args[0].value == 0):
+                return "(match %s with | [] => Py.Rd.raised | %s :: %s => %s)" % (self.sink, x, self.sink, self.body(rest, params + [x]))
+            c = self.call(v, params)
+            if c is not None:
+                return "(match %s with | Py.Rd.raised => Py.Rd.raised | Py.Rd.ret %s %s => %s)" % (c, x, self.sink, self.body(rest, params + [x]))
+            return "(let %s : Nat := %s; %s)" % (x, self.nexpr(v, params), self.body(rest, params + [x]))
+        if isinstance(s, ast.If):
+            return "(if %s then %s else %s)" % (self.test(s.test, params), self.body(s.body + rest, params), self.body(s.orelse + rest, params))
+        if isinstance(s, ast.Pass) or (isinstance(s, ast.Expr) and isinstance(s.value, ast.Constant)):
+            return self.body(rest, params)
+        raise Unsupported("statement %s" % ast.unparse(s).split("\n")[0])
+
+    def translate(self, names):
+        out = []
+        for name in names:
+            fn = next(n for n in self.cls.body if isinstance(n, ast.FunctionDef) and n.name == name)
+            params = [a.arg for a in fn.args.args[1:]]
+            if not params or params[-1] != self.sink or fn.args.defaults:
+                raise Unsupported("%s does not take (..., %s)" % (name, self.sink))
+            params = params[:-1]
+            out.append("/-- `%s.%s` (line %d of the source): the value it returns and what it leaves of `%s` -/\ndef %s%s %s(%s : List Nat) : Py.Rd :=\n  %s\n"
+                       % (self.cls.name, name, fn.lineno, self.sink, self.prefix, name, "".join("(%s : Nat) " % p for p in params), self.sink,
+                          self.body(fn.body, params)))
+            self.names.add(name)
+        return "\n".join(out)
